@@ -17,14 +17,15 @@ Definition bad {A} (chk : A -> bool) (cs : list (N * A)) : list N :=
   map fst (filter (fun c => negb (chk (snd c))) cs).
 
 Record txf := { f_id : bytes; f_size : N; f_bytes : bytes; f_gas : option N; f_script_off : option N;
-                f_contracts : list N; f_io : list (N * N) }.
+                f_contracts : list N; f_io : list (N * N);
+                f_owner : option N }.   (* the owner pointer the specification's rule gives for this transaction *)
 Record pf := { p_base : bytes; p_max_inputs : N; p_tx_offset : N }.
 Definition balances_t := list (N * (bytes * N)).
 
 Definition run_env : env txf pf (option N) unit balances_t balances_t N unit :=
   {| prepare_sign := fun t => t;
      input_contracts_of := f_contracts;
-     owner_of := fun _ _ => inl None;
+     owner_of := fun _ t => inl (f_owner t);
      io_index_of := f_io;
      tx_id := fun _ t => f_id t;
      base_asset_id := p_base;
@@ -38,7 +39,7 @@ Definition run_env : env txf pf (option N) unit balances_t balances_t N unit :=
      rb_entries := fun rb => rb;
      block_height := fun s => s;
      clear_last_state := fun d => d;
-     ib_default := []; tx_default := {| f_id := []; f_size := 0; f_bytes := []; f_gas := None; f_script_off := None; f_contracts := []; f_io := [] |};
+     ib_default := []; tx_default := {| f_id := []; f_size := 0; f_bytes := []; f_gas := None; f_script_off := None; f_contracts := []; f_io := []; f_owner := None |};
      rb_default := []; debugger_default := tt; verifier_default := tt |}.
 
 Definition rvm := vm bytes txf pf (option N) unit unit unit balances_t balances_t N unit unit unit.
@@ -69,6 +70,7 @@ Record reuse_case := {
   rc_regs : list N;                           (* snapshot after initialisation *)
   rc_stack_len : N; rc_stack_runs : list (N * bytes);
   rc_hp : N;
+  rc_owner : option N;                        (* owner_ptr of the real instance after initialisation *)
 }.
 
 Fixpoint listN_eqb (a b : list N) : bool :=
@@ -85,7 +87,9 @@ Definition check_pre (c : reuse_case) (p : pre_state) : bool :=
       bytes_eqb (m_stack (mem v)) (dense (rc_stack_len c) (rc_stack_runs c)) &&
       (m_hp (mem v) =? rc_hp c) &&
       (lenN (frames v) =? 0) && (lenN (receipts v) =? 0) && (lenN (storage_slot_cache v) =? 0) &&
-      match ctx v with CtxScript h => h =? rc_height c | _ => false end
+      match ctx v with CtxScript h => h =? rc_height c | _ => false end &&
+      match owner_ptr v, rc_owner c with Some a, Some b => a =? b | None, None => true | _, _ => false end &&
+      listN_eqb (input_contracts v) (f_contracts (rc_tx c))
   | _ => false
   end.
 Definition check_reuse (c : reuse_case) : bool :=
@@ -95,7 +99,7 @@ Definition bad_reuse := bad check_reuse.
 (* self-test: a 16-byte "transaction", one balance entry, max_inputs = 2, from a dirty instance *)
 Example reuse_selftest :
   let t := {| f_id := repeat 1 32; f_size := 16; f_bytes := repeat 5 16; f_gas := Some 1000; f_script_off := Some 8;
-              f_contracts := []; f_io := [] |} in
+              f_contracts := []; f_io := []; f_owner := None |} in
   let p := {| p_base := repeat 2 32; p_max_inputs := 2; p_tx_offset := 152 |} in
   check_reuse {| rc_tx := t; rc_params := p; rc_height := 7; rc_balances := [(64, (repeat 3 32, 258))];
      rc_pre := [ {| ps_regs := repeat 0 64; ps_stack := []; ps_heap := []; ps_hp := MEM_SIZE; ps_frames := 0; ps_receipts := 0; ps_cache := 0 |};
@@ -103,5 +107,5 @@ Example reuse_selftest :
      rc_regs := [0;1;0;160;168;168;0;67108864;0;1000;1000;0;160] ++ repeat 0 51;
      rc_stack_len := 168;
      rc_stack_runs := [(0, repeat 1 32 ++ repeat 2 32 ++ repeat 3 32); (102, [1;2]); (151, [16] ++ repeat 5 16)];
-     rc_hp := MEM_SIZE |} = true.
+     rc_hp := MEM_SIZE; rc_owner := None |} = true.
 Proof. vm_compute. reflexivity. Qed.
